@@ -19,7 +19,13 @@ Oracle (all structure is read through lib.snapshot -> RefTree, i.e. raw links, n
     state; a run with repeat_until_success=False either raises the documented TreeSimTotalExtinctionException (=> the
     default run took the restart path; counted) or returns the identical tree; a run without rng after
     GLOBAL_RNG.setstate(Random(seed).getstate()) gives the identical tree and consumes the identical stream;
-  * random.getstate() and dendropy.utility.GLOBAL_RNG.getstate() are unchanged by every call that was given an rng.
+  * random.getstate() and dendropy.utility.GLOBAL_RNG.getstate() are unchanged by every call that was given an rng;
+  * birth-death optional flags: is_assign_extinct_taxa, is_add_extinct_attr, extinct_attr_name are documented as ignored
+    while extinct tips are pruned => same specification AND the same tree as without them from the same generator
+    state; is_assign_extant_taxa=False => no tip carries a taxon (everything else as specified);
+  * contained_coalescent_tree with gene taxa that share labels (documented contained_taxon_label_fn): tips are identified
+    by the position of their taxon in the gene namespace, so determinism across rebuilt arguments is judged on Taxon
+    identity, not on labels.
 """
 import math
 import random
@@ -42,7 +48,10 @@ CONFIG = {
              "[0, 0.95] (biased to >= 0.8), num_extant_tips stopping rule, default options, with/without a supplied "
              "namespace (0..N+5 taxa, labels colliding with the generated T<k> names); coalescent population sizes "
              "0.01..1e6; species trees with 2-10 (thorough 75) species, arity <= 3, exactly ultrametric with dyadic "
-             "heights, 1-4 genes per species, per-edge population sizes.  Non-trivial = the simulated tree has >= 3 "
+             "heights, 1-4 genes per species (contained_coalescent_tree: gene labels unique, shared within a species or one "
+             "label for all genes; tips identified by gene-namespace position), per-edge population sizes; birth-death: "
+             "half of the cases sweep is_assign_extinct_taxa / is_assign_extant_taxa / is_add_extinct_attr / "
+             "extinct_attr_name.  Non-trivial = the simulated tree has >= 3 "
              "tips; distinct = (simulator, full argument case incl. seed)."),
     "assumptions": [
         "only the tree simulators are covered; numeric helpers (time_to_coalescence, discrete_time_to_coalescence) are not",
@@ -84,6 +93,25 @@ def label_pool(max_n):
     return ["T%d" % i for i in range(1, max_n + 8)] + ["t1", "T01", "sp A", "sp_B", "x", "T", "1"]
 
 
+# Optional arguments that, by the docstring, do not change the specification while extinct tips are pruned (the default):
+# is_assign_extinct_taxa, is_add_extinct_attr and extinct_attr_name "only make sense if extinct tips are retained ... and
+# will otherwise be ignored"; is_assign_extant_taxa=True is the default; is_assign_extant_taxa=False is documented as
+# "taxa will not be assigned to extant tips".  Half of the cases keep every flag at its default.
+@st.composite
+def bd_flags(draw):
+    if draw(st.booleans()):
+        return {}
+    f = {}
+    for name, values in (("is_assign_extinct_taxa", [False, False, True]), ("is_assign_extant_taxa", [True, True, False]),
+                         ("is_add_extinct_attr", [False, True]), ("extinct_attr_name", ["is_extinct", "dead", "taxon_is_gone"])):
+        if draw(st.booleans()):
+            f[name] = draw(st.sampled_from(values))
+    return f
+
+
+BD_FLAGS = bd_flags()
+
+
 @st.composite
 def bd_cases(draw, max_n):
     n = draw(tips(max_n))
@@ -99,7 +127,8 @@ def bd_cases(draw, max_n):
         # bias towards labels of the form T<k> with small k: these collide with the names the simulator makes up
         small = pool[:n + 6]
         ns = draw(st.lists(st.one_of(st.sampled_from(small), st.sampled_from(pool)), min_size=k, max_size=k, unique=True))
-    return {"seed": draw(SEED), "n": n, "birth": birth, "death": death, "ns": ns, "via_global": draw(st.booleans())}
+    return {"seed": draw(SEED), "n": n, "birth": birth, "death": death, "ns": ns, "via_global": draw(st.booleans()),
+            "flags": draw(BD_FLAGS)}
 
 
 @st.composite
@@ -157,7 +186,10 @@ def contained_cases(draw, max_species):
         pops = draw(st.lists(EDGE_POP, min_size=nn, max_size=nn))
     return {"seed": draw(SEED), "sp": spec, "genes": draw(st.lists(ints(1, 4), min_size=s, max_size=s)),
             "pops": pops, "default_pop": draw(st.one_of(st.just(1), st.sampled_from([0.1, 1.0, 3, 50]))),
-            "scalar_genes": draw(st.booleans()), "via_global": draw(st.booleans())}
+            "scalar_genes": draw(st.booleans()), "via_global": draw(st.booleans()),
+            # default: "<species> <k>"; the others go through the documented contained_taxon_label_fn /
+            # contained_taxon_label_prefix arguments and give the gene copies of one species (or all genes) ONE label
+            "gene_labels": draw(st.sampled_from(["default", "default", "species", "species", "constant", "prefix"]))}
 
 
 @st.composite
@@ -200,10 +232,13 @@ class Seen(object):
         self.canon = canon
 
 
-def examine(ctx, sim, tree, n_expected, one_leaf_per_taxon):
-    """Structure / taxa / lengths / equidistance clauses.  Returns Seen."""
+def examine(ctx, sim, tree, n_expected, one_leaf_per_taxon, expect_taxa=True, distinct_labels=True, taxon_key=None):
+    """Structure / taxa / lengths / equidistance clauses.  Returns Seen.
+
+    expect_taxa=False: the call asked for no taxa on the (extant) tips; distinct_labels=False: the supplied taxa share
+    labels on purpose; taxon_key: identity of a taxon in the canonical form (default: its label)."""
     ctx.check(tree is not None and hasattr(tree, "_seed_node"), "returns_tree", K("returns_tree", sim), repr(tree))
-    rt, problems = snapshot(tree)
+    rt, problems = snapshot(tree, taxon_key=taxon_key)
     ctx.check(not problems, "well_formed", K("well_formed", sim), lambda: "; ".join(problems[:5]))
     tp = traversal_problems(tree, rt)
     ctx.check(not tp, "well_formed", K("traversals", sim), lambda: "; ".join(tp[:5]))
@@ -218,13 +253,19 @@ def examine(ctx, sim, tree, n_expected, one_leaf_per_taxon):
     ctx.check(ns is not None, "taxa", K("namespace_present", sim), "tree has no taxon namespace")
     member_ids = set(id(t) for t in list(ns))
     leaf_taxa = [rt.obj[i].taxon for i in leaves]
+    if not expect_taxa:
+        ctx.check(all(t is None for t in leaf_taxa), "taxa", K("taxa_assigned_despite_flag", sim),
+                  lambda: "%d of %d extant tips carry a taxon although is_assign_extant_taxa=False" % (
+                      sum(1 for t in leaf_taxa if t is not None), len(leaves)))
+        leaf_taxa = []
     ctx.check(all(t is not None for t in leaf_taxa), "taxa", K("leaf_without_taxon", sim),
               lambda: "%d of %d leaves carry no taxon" % (sum(1 for t in leaf_taxa if t is None), len(leaves)))
     all_taxa = [rt.obj[i].taxon for i in rt.nodes() if rt.obj[i].taxon is not None]
     ctx.check(len(set(id(t) for t in all_taxa)) == len(all_taxa), "taxa", K("taxon_used_twice", sim),
               lambda: "labels on the tree: %r" % sorted(str(t.label) for t in all_taxa))
     labels = [t.label for t in leaf_taxa]
-    ctx.check(len(set(labels)) == len(labels), "taxa", K("taxon_label_used_twice", sim), lambda: repr(sorted(map(str, labels))))
+    if distinct_labels:
+        ctx.check(len(set(labels)) == len(labels), "taxa", K("taxon_label_used_twice", sim), lambda: repr(sorted(map(str, labels))))
     outside = [t for t in all_taxa if id(t) not in member_ids]
     ctx.check(not outside, "taxa", K("taxon_not_in_namespace", sim),
               lambda: "%d taxon object(s) on the tree are not members of tree.taxon_namespace, e.g. %r (namespace "
@@ -315,6 +356,9 @@ def run_twice(ctx, sim, case, simulate, inspect):
     # a replayed case gets more repetitions (with the earlier results kept alive, so that fresh objects land at other
     # addresses): the saved case of an address-dependent difference must reproduce reliably
     for attempt in range(12 if ctx.replay_mode else 1):
+        # unrelated Taxon objects allocated between the runs, so that the objects of run 2 do not sit at the same
+        # relative addresses as those of run 1 (the count is a function of the case, not of the clock)
+        keep.append(make_namespace(["pad"] * (1 + (seed + 5 * attempt) % 11)))
         r2 = random.Random(seed)
         res2 = guarded(ctx, sim, lambda: ctx.call(K("raises", sim), simulate, r2))
         seen2 = inspect(res2)
@@ -374,10 +418,16 @@ def bd_case(ctx, case, sim):
     n = case["n"]
     seed = case["seed"]
     given = {}
+    flags = dict(case.get("flags") or {})
+    expect_taxa = flags.get("is_assign_extant_taxa", True) is not False
 
     def simulate(rng, **extra):
         kw = dict(num_extant_tips=n)
+        kw.update(flags)
         kw.update(extra)
+        if kw.pop("_default_flags", False):
+            for name in flags:
+                kw.pop(name, None)
         if rng is not None:
             kw["rng"] = rng
         ns = None
@@ -389,11 +439,14 @@ def bd_case(ctx, case, sim):
         return tree
 
     def inspect(tree):
-        seen = examine(ctx, sim, tree, n, one_leaf_per_taxon=False)
+        seen = examine(ctx, sim, tree, n, one_leaf_per_taxon=False, expect_taxa=expect_taxa)
         ns, before = given.get(id(tree), (None, None))
         if ns is not None:
             ctx.check(tree.taxon_namespace is ns, "supplied_namespace", K("supplied_namespace_not_used", sim),
                       "tree.taxon_namespace is not the namespace passed as taxon_namespace=")
+        if not expect_taxa:
+            return seen  # what happens to the namespace when no taxa are wanted is not documented
+        if ns is not None:
             after = list(ns)
             ctx.check(len(after) >= len(before) and all(a is b for a, b in zip(after, before)), "supplied_namespace",
                       K("supplied_namespace_members_changed", sim),
@@ -428,6 +481,20 @@ def bd_case(ctx, case, sim):
         ctx.check(seen3.canon == seen1.canon and r3.getstate() == r1.getstate(), "deterministic",
                   K("repeat_until_success_changes_result", sim),
                   lambda: "no extinction happened, yet repeat_until_success=False gives another tree; %s" % first_diff(seen1.canon, seen3.canon))
+    if flags:
+        for name in sorted(flags):
+            ctx.cls("%s:flag %s=%r" % (sim, name, flags[name]))
+        if expect_taxa:
+            # every flag that was passed is documented as ignored while extinct tips are pruned (or equals the default):
+            # the same generator state without them must give the same tree
+            r4 = random.Random(seed)
+            t4 = guarded(ctx, sim, lambda: ctx.call(K("raises", sim), simulate, r4, _default_flags=True))
+            seen4 = inspect(t4)
+            ctx.check(seen4.canon == seen1.canon and r4.getstate() == r1.getstate(), "ignored_options",
+                      K("ignored_option_changes_result", sim),
+                      lambda: "%r changes the tree although extinct tips are pruned; %s" % (flags, first_diff(seen1.canon, seen4.canon)))
+    else:
+        ctx.cls("%s:flags all default" % sim)
     ctx.cls("%s:tips %s" % (sim, size_class(n)))
     nsl = case["ns"]
     ctx.cls("%s:namespace %s" % (sim, "none" if nsl is None else "empty" if not nsl else "fewer" if len(nsl) < n
@@ -629,33 +696,53 @@ def sc_contained_coalescent(ctx, case):
     if case["scalar_genes"]:
         genes = [genes[0]] * sp.n
     total = sum(genes)
-    expected_labels = set("%s %d" % (species_label(i), j + 1) for i in range(sp.n) for j in range(genes[i]))
+    mode = case.get("gene_labels", "default")
+    # gene k of the gene namespace (genes are created species by species, in namespace order) belongs to species owner[k]
+    owner = [i for i in range(sp.n) for _ in range(genes[i])]
+    expected_labels = ["%s %d" % (species_label(i), j + 1) for i in range(sp.n) for j in range(genes[i])]
     given = {}
 
     def simulate(rng):
         sptree, n = build_species_tree(case)
+        mkw = {}
+        if mode == "species":
+            mkw["contained_taxon_label_fn"] = lambda taxon, idx: "%s gene" % taxon.label
+        elif mode == "constant":
+            mkw["contained_taxon_label_fn"] = lambda taxon, idx: "gene"
+        elif mode == "prefix":
+            mkw["contained_taxon_label_prefix"] = "g"
         mapping = dendropy.TaxonNamespaceMapping.create_contained_taxon_mapping(
             containing_taxon_namespace=sptree.taxon_namespace,
-            num_contained=genes[0] if case["scalar_genes"] else list(genes))
+            num_contained=genes[0] if case["scalar_genes"] else list(genes), **mkw)
+        gene_ns = list(mapping.domain_taxon_namespace)
+        if len(gene_ns) != total or [mapping.forward[g].label for g in gene_ns] != [species_label(i) for i in owner]:
+            raise runner.HarnessError("gene namespace is not laid out species by species")
         kw = {}
         if rng is not None:
             kw["rng"] = rng
         if case["default_pop"] != 1:
             kw["default_pop_size"] = case["default_pop"]
         tree = treesim.contained_coalescent_tree(sptree, mapping, **kw)
-        given[id(tree)] = (mapping, sptree)
+        given[id(tree)] = (mapping, sptree, dict((id(t), k) for k, t in enumerate(gene_ns)), gene_ns)
         return tree
 
     def inspect(tree):
-        seen = examine(ctx, sim, tree, total, one_leaf_per_taxon=True)
-        got = set(seen.rt.taxon[i] for i in seen.rt.leaves())
-        ctx.check(got == expected_labels, "taxa", K("gene_labels", sim),
-                  lambda: "unexpected %r missing %r" % (sorted(got - expected_labels)[:5], sorted(expected_labels - got)[:5]))
-        multi, uns = containment(ctx, sim, sp, seen, lambda lab: str(lab).rsplit(" ", 1)[0])
+        index = given[id(tree)][2]
+        # a tip is identified by the POSITION of its taxon in the gene namespace (labels may be shared on purpose)
+        seen = examine(ctx, sim, tree, total, one_leaf_per_taxon=True, distinct_labels=(mode in ("default", "prefix")),
+                       taxon_key=lambda t: "g%d" % index[id(t)] if id(t) in index else "?%s" % (t.label,))
+        if mode == "default":
+            got = sorted(seen.rt.obj[i].taxon.label for i in seen.rt.leaves())
+            ctx.check(got == sorted(expected_labels), "taxa", K("gene_labels", sim),
+                      lambda: "leaf labels %r, expected %r" % (got[:6], sorted(expected_labels)[:6]))
+        multi, uns = containment(ctx, sim, sp, seen,
+                                 lambda key: species_label(owner[int(key[1:])]) if str(key).startswith("g") else None)
         seen.multi, seen.unsorted = multi, uns
         return seen
 
     seen1, _ = run_twice(ctx, sim, case, simulate, inspect)
+    ctx.cls("%s:gene labels %s" % (sim, {"default": "unique", "prefix": "unique (prefix argument)", "species": "shared within a species",
+                                        "constant": "one label for all genes"}[mode]))
     coalescent_classes(ctx, sim, case, seen1, total)
 
 
